@@ -480,86 +480,61 @@ pub fn op_buildrt(bt: &str, ops: &Value, tagged: bool, a: &[Vec<u8>]) -> Out {
             }
         };
     }
-    let mut rec = String::new();
-    let mut grab = |s: &[u8], d: &[u8]| -> Result<(), ()> {
-        rec = record2(s, d).unwrap();
-        Ok(())
+    // phase 1: build + wire (a panic here is the whole observation); phase 2: the helper call
+    enum M { S1(CoseSign1), S(CoseSign), M0(CoseMac0), Mc(CoseMac), E(CoseEncrypt), E0(CoseEncrypt0), R(CoseRecipient) }
+    let (b, y) = match bt {
+        "CoseSign1" => { let (b, y) = built!(build_sign1(ops)); (b, M::S1(y)) }
+        "CoseSign" => { let (b, y) = built!(build_sign(ops)); (b, M::S(y)) }
+        "CoseMac0" => { let (b, y) = built!(build_mac0(ops)); (b, M::M0(y)) }
+        "CoseMac" => { let (b, y) = built!(build_mac(ops)); (b, M::Mc(y)) }
+        "CoseEncrypt" => { let (b, y) = built!(build_encrypt(ops)); (b, M::E(y)) }
+        "CoseEncrypt0" => { let (b, y) = built!(build_encrypt0(ops)); (b, M::E0(y)) }
+        "CoseRecipient" => { let (b, y) = built!(build_recipient(ops)); (b, M::R(y)) }
+        _ => return Err("unknown buildrt type".into()),
     };
-    let b = match bt {
-        "CoseSign1" => {
-            let (b, y) = built!(build_sign1(ops));
-            match a.len() {
+    let a2: Vec<Vec<u8>> = a.to_vec();
+    let r = std::panic::catch_unwind(std::panic::AssertUnwindSafe(move || -> Result<String, String> {
+        let a = &a2;
+        let mut rec = String::new();
+        let mut grab = |s: &[u8], d: &[u8]| -> Result<(), ()> {
+            rec = record2(s, d).unwrap();
+            Ok(())
+        };
+        match y {
+            M::S1(y) => match a.len() {
                 1 => y.verify_signature(&a[0], &mut grab).unwrap(),
                 2 => y.verify_detached_signature(&a[0], &a[1], &mut grab).unwrap(),
                 _ => return Err("buildrt args".into()),
-            }
-            b
-        }
-        "CoseSign" => {
-            let (b, y) = built!(build_sign(ops));
-            match a.len() {
+            },
+            M::S(y) => match a.len() {
                 2 => y.verify_signature(which_of(&a[0]), &a[1], &mut grab).unwrap(),
-                3 => y
-                    .verify_detached_signature(which_of(&a[0]), &a[1], &a[2], &mut grab)
-                    .unwrap(),
+                3 => y.verify_detached_signature(which_of(&a[0]), &a[1], &a[2], &mut grab).unwrap(),
                 _ => return Err("buildrt args".into()),
+            },
+            M::M0(y) => { if a.len() != 1 { return Err("buildrt args".into()); } y.verify_tag(&a[0], &mut grab).unwrap() }
+            M::Mc(y) => { if a.len() != 1 { return Err("buildrt args".into()); } y.verify_tag(&a[0], &mut grab).unwrap() }
+            M::E(y) => {
+                if a.len() != 1 { return Err("buildrt args".into()); }
+                let r: Result<Vec<u8>, ()> = y.decrypt(&a[0], |c, d| { grab(c, d)?; Ok(vec![]) });
+                r.unwrap();
             }
-            b
-        }
-        "CoseMac0" => {
-            let (b, y) = built!(build_mac0(ops));
-            if a.len() != 1 {
-                return Err("buildrt args".into());
+            M::E0(y) => {
+                if a.len() != 1 { return Err("buildrt args".into()); }
+                let r: Result<Vec<u8>, ()> = y.decrypt(&a[0], |c, d| { grab(c, d)?; Ok(vec![]) });
+                r.unwrap();
             }
-            y.verify_tag(&a[0], &mut grab).unwrap();
-            b
-        }
-        "CoseMac" => {
-            let (b, y) = built!(build_mac(ops));
-            if a.len() != 1 {
-                return Err("buildrt args".into());
+            M::R(y) => {
+                if a.len() != 2 { return Err("buildrt args".into()); }
+                let ctx = enc_ctx(std::str::from_utf8(&a[0]).map_err(|_| "ctx")?)?;
+                let r: Result<Vec<u8>, ()> = y.decrypt(ctx, &a[1], |c, d| { grab(c, d)?; Ok(vec![]) });
+                r.unwrap();
             }
-            y.verify_tag(&a[0], &mut grab).unwrap();
-            b
         }
-        "CoseEncrypt" => {
-            let (b, y) = built!(build_encrypt(ops));
-            if a.len() != 1 {
-                return Err("buildrt args".into());
-            }
-            let r: Result<Vec<u8>, ()> = y.decrypt(&a[0], |c, d| {
-                grab(c, d)?;
-                Ok(vec![])
-            });
-            r.unwrap();
-            b
-        }
-        "CoseEncrypt0" => {
-            let (b, y) = built!(build_encrypt0(ops));
-            if a.len() != 1 {
-                return Err("buildrt args".into());
-            }
-            let r: Result<Vec<u8>, ()> = y.decrypt(&a[0], |c, d| {
-                grab(c, d)?;
-                Ok(vec![])
-            });
-            r.unwrap();
-            b
-        }
-        "CoseRecipient" => {
-            let (b, y) = built!(build_recipient(ops));
-            if a.len() != 2 {
-                return Err("buildrt args".into());
-            }
-            let ctx = enc_ctx(std::str::from_utf8(&a[0]).map_err(|_| "ctx")?)?;
-            let r: Result<Vec<u8>, ()> = y.decrypt(ctx, &a[1], |c, d| {
-                grab(c, d)?;
-                Ok(vec![])
-            });
-            r.unwrap();
-            b
-        }
-        _ => return Err("unknown buildrt type".into()),
-    };
-    Ok(format!("ok {} {}", hex(&b), rec))
+        Ok(rec)
+    }));
+    match r {
+        Ok(Ok(rec)) => Ok(format!("ok {} ok {}", hex(&b), rec)),
+        Ok(Err(e)) => Err(e),
+        Err(_) => Ok(format!("ok {} panic", hex(&b))),
+    }
 }
